@@ -575,7 +575,9 @@ func argIndexOf(f *core.Func, info *types.Info, e ast.Expr, depth int) int {
 }
 
 // c07Dedup: structural rule for the three hash-bucket de-duplication loops.
-func c07Dedup(c *core.Ctx) {
+func c07Dedup(c *core.Ctx) { c07DedupRule(c, rC07Dedup) }
+
+func c07DedupRule(c *core.Ctx, rC07Dedup string) {
 	f := c.MustFunc(rC07Dedup, "functional", "EvalReduceFn")
 	if f == nil {
 		return
